@@ -112,6 +112,63 @@ def shrink_sites(exe, work, case, stream, want_clause):
     return res[0][0] if res and clause(res[0][1]) == want_clause else case
 
 
+def wkt_of_case(case):
+    """WKT of the input of a `C …` line when every ordinate prints exactly as an integer (small cases), else None"""
+    try:
+        import gtok
+        w = gtok.wkt(case.split(" T ")[0].split(" ", 1)[1])
+        return w if len(w) < 1500 else None
+    except Exception:
+        return None
+
+
+def coll_member_removals(inp):
+    """input tokens of a collection -> the variants with one member of one (nested) collection removed"""
+    import copy, gtok
+    geom = gtok.parse(inp)
+    out = []
+
+    def paths(g, path):
+        if g[0] in gtok.COLL and g[0] not in ("K", "U"):
+            yield path, g
+            for i, e in enumerate(g[1]):
+                yield from paths(e, path + [i])
+    for path, node in list(paths(geom[1], [])):
+        for i in range(len(node[1])):
+            g2 = copy.deepcopy(geom)
+            n = g2[1]
+            for j in path:
+                n = n[1][j]
+            n[1].pop(i)
+            out.append(gtok.show(g2))
+    return out
+
+
+def shrink_coll(exe, work, case, want_clause):
+    """drop members of the input collection while the same clause keeps failing"""
+    try:
+        cur = case.split(" T ")[0].split(" ", 1)[1]
+        for _ in range(80):
+            cands = coll_member_removals(cur)
+            if not cands:
+                break
+            res = rerun(exe, work, ["C " + c + " T ERR" for c in cands[:120]], "cdt")
+            hit = None
+            for c, (_, v) in zip(cands, res):
+                if clause(v) == want_clause:
+                    hit = c
+                    break
+            if hit is None:
+                break
+            cur = hit
+        rr = rerun(exe, work, ["C " + cur + " T ERR"], "cdt")
+        if rr and clause(rr[0][1]) == want_clause:
+            return rr[0]
+    except Exception:
+        pass
+    return None
+
+
 _PT = re.compile(r"\((-?\d+),(-?\d+)\)")
 
 
@@ -166,7 +223,7 @@ def signature_for(stream, verdict, exe):
             sig = {"op": "delaunay", "class": "non-delaunay-near-cocircular"}
     if stream == "cdt" and cl == "not-constrained-delaunay":
         # the offending pair: t = first triangle, the far corner of the second one
-        m = re.search(r"tri=((?:\(-?\d+,-?\d+\)){3}) tri2=((?:\(-?\d+,-?\d+\)){3}) unit=2\^(-?\d+)", verdict)
+        m = re.search(r"tri=((?:\(-?\d+,-?\d+\)){3}) tri2=((?:\(-?\d+,-?\d+\)){3})(?: component=\d+)? unit=2\^(-?\d+)", verdict)
         if m:
             t = _PT.findall(m.group(1)); u = _PT.findall(m.group(2))
             far = [p for p in u if p not in t]
@@ -276,16 +333,19 @@ def run(ctx):
                                "replay_cmd": "bin/check C16 --replay <this file>", "signature": sig}, signature=sig)
         corr["corpus"] = {"cases": len(rows), "disagreements": bad, "distribution": {}}
     quick = ctx.tier == "quick"
-    plan = (("delaunay", 4000 if quick else 40000), ("cdt", 6000 if quick else 80000), ("voronoi", 3200 if quick else 40000))
+    plan = (("delaunay", 4000 if quick else 40000), ("cdt", 6000 if quick else 80000), ("cdtcoll", 2400 if quick else 40000),
+            ("voronoi", 3200 if quick else 40000))
     shards = min(verif.NPROC, 8 if quick else 16)
-    for stream, n in plan:
-        r = verif.run_stream(exe, stream, ctx.seed, n, ctx.work, shards=shards, driver_exe=DRV)
+    for hstream, n in plan:
+        # `cdtcoll` (collections of polygons) is a generator of its own; its lines are `C …` lines checked by the driver's `cdt`
+        stream = "cdt" if hstream == "cdtcoll" else hstream
+        r = verif.run_stream(exe, hstream, ctx.seed, n, ctx.work, shards=shards, driver_exe=DRV, driver_stream=stream)
         nd = len(r["disagreements"]) + r.get("more_disagreements", 0)
-        corr[stream] = {"cases": r["cases"], "disagreements": nd, "distribution": r["stats"]}
+        corr[hstream] = {"cases": r["cases"], "disagreements": nd, "distribution": r["stats"]}
         ctx.cov["samples"] += [{"case": s["case"][:300], "impl": s["impl"], "model": s["model"]} for s in r.get("samples", [])[:1]]
         if r["error"]:
-            ctx.violation("correspondence stream %s could not run: %s" % (stream, r["error"]),
-                          {"kind": "tie-broken", "correspondence": stream, "detail": r["error"][:2000]}, nofail=True)
+            ctx.violation("correspondence stream %s could not run: %s" % (hstream, r["error"]),
+                          {"kind": "tie-broken", "correspondence": hstream, "detail": r["error"][:2000]}, nofail=True)
             continue
         seen = list(reported)
         budget = 12          # shrink at most this many disagreements per stream
@@ -296,7 +356,7 @@ def run(ctx):
         if r.get("more_disagreements", 0):
             dis = []
             for k in range(shards):
-                base = os.path.join(ctx.work, "%s.%d" % (stream, k))
+                base = os.path.join(ctx.work, "%s.%d" % (hstream, k))
                 try:
                     with open(base + ".cases") as fc, open(base + ".expect") as fe, open(base + ".got") as fg:
                         for i, (c, e_, g) in enumerate(zip(fc.read().split("\n"), fe.read().split("\n"), fg.read().split("\n"))):
@@ -313,7 +373,7 @@ def run(ctx):
             if k0 not in keyed:
                 keyed[k0] = d
                 order.append(k0)
-        corr[stream]["failure_kinds"] = {k: sum(1 for d in dis if (clause(d[3]) if d[3].startswith("FAIL") else d[3][:40]) == k) for k in order if not k.startswith("{")}
+        corr[hstream]["failure_kinds"] = {k: sum(1 for d in dis if (clause(d[3]) if d[3].startswith("FAIL") else d[3][:40]) == k) for k in order if not k.startswith("{")}
         for idx, case, exp, got in [keyed[k] for k in order]:
             if not got.startswith("FAIL"):
                 # ok vs ok-error mismatch or a driver parse problem: the tie itself is broken, not the property
@@ -342,6 +402,10 @@ def run(ctx):
                     case2, got2 = rr[0]
                 else:
                     case2, got2 = case, got
+            if hstream == "cdtcoll":
+                sh = shrink_coll(exe, ctx.work, case, clause(got))
+                if sh:
+                    case2, got2 = sh
             sig, extra = signature_for(stream, got2, exe)
             if sig in seen:
                 continue
@@ -351,6 +415,7 @@ def run(ctx):
             what = "%s: %s — checker verdict: %s" % (stream, WHAT.get(clause(got2), "output violates clause '%s' of the property" % clause(got2)), got2[:300])
             ctx.violation(what, {"kind": "failing-input", "stream": stream, "case": case2, "checker": got2, "analysis": extra,
                                  "n_sites": (len(parse_sites_case(case2)[1]) if stream != "cdt" else None),
+                                 "input_wkt": (wkt_of_case(case2) if stream == "cdt" else None),
                                  "replay_cmd": "bin/check C16 --replay <this file>", "signature": sig}, signature=sig)
     ctx.cov["support_correspondence"] = corr
     if not proved:
